@@ -133,6 +133,14 @@ NEEDS = {
     'S10-C11': "arithmeticMean refactored through a helper; the third component of the 3-D branch passes the widths in linearMean's order (neighbour's width); 3-D classes, non-uniform third axis",
     'S10-C14': "CellVariable.__mul__/__rmul__ fast path for scalars scales the stored array including ghost cells (ghosts are affine, not linear, in the interior); scalar operand != 1 and an inhomogeneous boundary condition",
     'S10-C16': "BoundaryFace.__init__ delegates its type check to TrackedArray(x, strict=True), which duck-types on `ndim`; numpy scalars (np.float64, arr[0], arr.sum()) as coefficients no longer raise TypeError",
+    'S11-C02': "convectionTermCylindrical3D: the back-face part of the z diagonal uses the front neighbour's size (DZf for DZb); CylindricalGrid3D, central scheme, non-uniform z, axial velocity",
+    'S11-C06': "convectionUpwindTermCylindrical1D boundary correction 'cleaned up' to reuse AW[0]; at the left boundary the halving runs before the diagonal update (a quarter instead of half); annulus with inner radius > 0, outward flow at the inner face",
+    'S11-C07': "convectionUpwindTermCylindrical1D refactored with hoisted face weights; the right-boundary diagonal correction uses the west-face weight of the last cell; inward flow at the outer face",
+    'S11-C09': "the a / b / c setters of BoundaryFace share a helper that returns early when `val is coeff` (face.c += x ends in exactly that call: the flag is never raised)",
+    'S11-C12': "defaultNoFlux / fixedValue / fixedGradient / newtonCooling share a helper that skips the write when np.allclose(old, new): a slowly ramped boundary value is dropped, the cached boundary term stays",
+    'S11-C13': "fluxLimiter: MUSCL / QUICK / smart share a kappa-scheme helper with the upper plateau 2 hard-coded (SMART's is 4); 'smart' with r > 7/3",
+    'S11-C15': "arithmeticMean caches its face weights in a module-level dict keyed by class, dims and the end faces only; two meshes of equal extent and different interior spacing",
+    'S11-C17': "the 1-D diffusion builders share _centerDistances with a uniform-mesh shortcut `if np.allclose(DX, DX[0])` (default atol=1e-8 on a length); non-uniform 1-D mesh with tiny cells in absolute numbers",
     'S2-C16': "assigning FaceVariable.yvalue on CylindricalGrid2D / PolarGrid2D / 3-D curvilinear grids (subclasses of Grid2D/Grid3D) where the label is not documented",
 }
 
@@ -199,6 +207,7 @@ BEFORE = {
     'S9-C16': "C16 silent (L3 switched the flag on with True only); L3 also uses a truthy non-bool through the public setter",
     'S10-C10': "exit 2 in every check that builds a 3-D mesh (bool() of a tolerance predicate was not modelled); bool(np.allclose(..)) forks per job path like `if np.allclose(..)`, reported by C10.G1",
     'S10-C16': "exit 2 in C16 (the model of TrackedArray(..) accepted exactly one positional argument and never ran the class's own __new__); __new__ is interpreted now and only `np.asarray(x).view(cls)` is a modelled library step, reported by C16.L6",
+    'S11-C17': "C17 silent (homogeneity holds on each path of the tolerance branch; which path is taken was not judged), C02 / C05 / C08 reported the value change; C17.H6 requires every tolerance predicate a branch is decided on to be scale-invariant",
     'S4-C02': "reported by C05 / C07 / C15 only until round 9; C02 re-decides the purity rules C15.Z1 / Z6 (lemma group PURITY) now",
     'S4-C07': "reported by C04.S8 / C09.P1 only until round 6; C07 re-decides the protocol lemmas now",
     'S5-C01': "reported by C03.B3 / C07.M3 / C08.A1 only until round 9; C01 re-decides C03.B3 (lemma group PERIODIC) now",
@@ -224,7 +233,7 @@ def main():
         meta = {
             'id': d,
             'breaks_property': prop,
-            'origin': 'independent sub-agent given only the property text and a scratch worktree' + (' (second round)' if d.startswith('S2') else ' (third round)' if d.startswith('S3') else ' (fourth round)' if d.startswith('S4') else ' (fifth round)' if d.startswith('S5') else ' (sixth round)' if d.startswith('S6') else ' (seventh round, with a focus area per property)' if d.startswith('S7') else ' (eighth round: triggers that are special values, sizes or types)' if d.startswith('S8') else ' (ninth round: two cooperating edits, each harmless alone)' if d.startswith('S9') else ' (tenth round: functions no earlier seed had touched)' if d.startswith('S10') else ''),
+            'origin': 'independent sub-agent given only the property text and a scratch worktree' + (' (second round)' if d.startswith('S2') else ' (third round)' if d.startswith('S3') else ' (fourth round)' if d.startswith('S4') else ' (fifth round)' if d.startswith('S5') else ' (sixth round)' if d.startswith('S6') else ' (seventh round, with a focus area per property)' if d.startswith('S7') else ' (eighth round: triggers that are special values, sizes or types)' if d.startswith('S8') else ' (ninth round: two cooperating edits, each harmless alone)' if d.startswith('S9') else ' (tenth round: functions no earlier seed had touched)' if d.startswith('S10') else ' (eleventh round: functions no earlier seed had touched, remaining properties)' if d.startswith('S11') else ''),
             'files_changed': files,
             'needs_to_manifest': NEEDS.get(d) or old.get('needs_to_manifest', ''),
             'confirmed_by_me': {
@@ -234,7 +243,7 @@ def main():
                 'demo_exit_without_change': ver.get('demo_without_change_exit'),
                 'confirmed': ver.get('confirmed'),
             },
-            'checks_run': ('tools/try_patch.py: scratch copy of /repo/src + docs with patch.diff applied, PV_REPO pointed at it, every ./check CNN --tier quick' if (d[:2] in ('S6', 'S7', 'S8', 'S9') or d.startswith('S10')) else 'tools/try_seed.py checks: git -C /repo apply patch.diff; every ./check CNN --tier quick; git -C /repo checkout -- .'),
+            'checks_run': ('tools/try_patch.py: scratch copy of /repo/src + docs with patch.diff applied, PV_REPO pointed at it, every ./check CNN --tier quick' if (d[:2] in ('S6', 'S7', 'S8', 'S9') or d.startswith('S10') or d.startswith('S11')) else 'tools/try_seed.py checks: git -C /repo apply patch.diff; every ./check CNN --tier quick; git -C /repo checkout -- .'),
             'caught_by': caught,
             'analysis_errors': {k: r['errors'][:1] for k, r in sorted(chk.items()) if r['exit'] == 2},
             'silent': [k for k, r in sorted(chk.items()) if r['exit'] == 0],
